@@ -419,7 +419,7 @@ mod inner {
 
                     for mapping_pair in mappings.by_ref() {
                         let input = mapping_pair[0]
-                            .atom(None)
+                            .atom(s.vars())
                             .ok_or_else(|| {
                                 anyhow_expr!(
                                     &mapping_pair[0],
